@@ -32,6 +32,11 @@ func (t DataType) Bytes(endian binary.ByteOrder, value interface{}, length int64
 		if !ok {
 			return nil, fmt.Errorf("expected *asetypes.Decimal for %s, received %T", t, value)
 		}
+		// A decimal without value is a null value, as returned by
+		// GoValue for zero bytes.
+		if dec.i == nil {
+			return []byte{}, nil
+		}
 		deci := dec.Int()
 
 		bs := make([]byte, length)
@@ -48,6 +53,12 @@ func (t DataType) Bytes(endian binary.ByteOrder, value interface{}, length int64
 		dec, ok := value.(*Decimal)
 		if !ok {
 			return nil, fmt.Errorf("expected *asetypes.Decimal for %s, received %T", t, value)
+		}
+
+		// A decimal without value is a null value, as returned by
+		// GoValue for zero bytes.
+		if dec.i == nil {
+			return []byte{}, nil
 		}
 
 		bs := make([]byte, dec.ByteSize())
